@@ -540,5 +540,6 @@ func main() {
 	_ = runtime.NumCPU
 	run.Assume("allocator accesses to mmap'ed slot memory are invisible to the race detector; covered by pattern sweeps")
 	run.Assume("defragmentation is exercised only at quiescence (documented as exclusive)")
+	os.RemoveAll(tmp) // Finish exits the process: deferred clean-up would not run
 	run.Finish("each case = one Malloc(size)/Free/hand-over/defrag-relocation on the real allocator checked against a shadow registry (unique id pattern, header, disjointness, Allocs) ; distinct_nontrivial = distinct requested sizes", "ops", "sizes", 100)
 }
